@@ -38,7 +38,7 @@ ASSUMPTIONS = [
     "lossless style set excludes right justification of the owner column and non-space chunk separators",
     "content = {owner: {(type, covers): (ttl, set of canonical rdata wire against the origin)}}",
 ]
-REQUIRED = ["mon.generate_partly_outside_zone", "mon.style_api_spellings", "mon.cname_conflict_injected", "mon.style_roundtrip", "mon.file_roundtrip", "mon.respelling", "mon.generate_vs_expansion", "mon.out_of_zone_ignored", "mon.cname_exclusive"]
+REQUIRED = ["mon.include_vs_expansion", "mon.comments_roundtrip_with_comments", "mon.generate_partly_outside_zone", "mon.style_api_spellings", "mon.cname_conflict_injected", "mon.style_roundtrip", "mon.file_roundtrip", "mon.respelling", "mon.generate_vs_expansion", "mon.out_of_zone_ignored", "mon.cname_exclusive"]
 BUDGET = {"quick": 45.0, "thorough": 480.0}
 
 FACTORIES = [("plain", dns.zone.Zone), ("versioned", dns.versioned.Zone), ("btree", dns.btreezone.Zone)]
@@ -161,8 +161,9 @@ def check_styles(ctx, rng, mz, nstyles):
     zname, factory = FACTORIES[rng.randrange(3)]
     relativize = rng.random() < 0.5
     tag = f"{zname}:{'rel' if relativize else 'abs'}"
-    z = GZ.build_lib_zone(mz, relativize, zone_factory=factory)
+    z = GZ.build_lib_zone(mz, relativize, zone_factory=factory, comment_rng=rng if rng.random() < 0.6 else None)
     want = GZ.content_of_lib_zone(z)
+    want_comments = GZ.comments_of_lib_zone(z)
     ttls = sorted({v[0] for d in want.values() for v in d.values()})
     base_case = {"kind": "style", "zone": zname, "relativize": relativize, "zone_text": GZ.mz_to_text(mz)[:3000]}
     if not cname_exclusive(ctx, z, base_case, tag):
@@ -210,6 +211,17 @@ def check_styles(ctx, rng, mz, nstyles):
             continue
         if not (z2 == z):
             ctx.violation("zone-equality-fails-after-write-read", tag, case)
+        if style.want_comments:
+            # comments are part of what this style writes: each record comes back with its own, the others with none
+            ctx.count("mon.comments_roundtrip")
+            gotc = GZ.comments_of_lib_zone(z2)
+            if any(want_comments.values()):
+                ctx.count("mon.comments_roundtrip_with_comments")
+            bad = [(k[0], k[1], want_comments.get(k), gotc.get(k)) for k in want_comments if (want_comments[k] or None) != (gotc.get(k) or None)]
+            if bad:
+                owner, rdtype, wc, gc = bad[0]
+                kindc = "comment-lost" if wc and not gc else "comment-appears-on-a-record-that-had-none" if gc and not wc else "comment-changed"
+                ctx.violation(f"record-comments-differ-after-write-read:{kindc}", f"{tag}: {RN.to_text(owner)} type {rdtype}: had {wc!r} read back {gc!r} ({len(bad)} records differ)\n--- text ---\n{text[:1200]}", case)
         cname_exclusive(ctx, z2, case, tag)
     # keyword form and file round trip
     ctx.count("mon.file_roundtrip")
@@ -517,6 +529,101 @@ def check_respellings(ctx, rng, mz):
             ctx.violation(f"generate-or-expansion-rejected:{type(e).__name__}", f"{gen}: {e!r}", case)
 
 
+def check_include(ctx, rng):
+    """$INCLUDE file [origin] versus the same records written out in one file: the origin argument (absolute or relative to
+    the origin in force), a $ORIGIN inside the included file and the included file's owners all end with the included file --
+    the parent continues with ITS origin and ITS last owner"""
+    import shutil
+
+    ctx.count("evaluations")
+    ctx.count("mon.include_vs_expansion")
+    zone_origin = "inc.test."
+    tmpdir = tempfile.mkdtemp(prefix="c09-inc-", dir=os.path.join(core.ROOT, ".work"))
+    counter = [0]
+    expanded = []  # absolute one-file spelling
+    features = set()
+
+    def absname(label, origin):
+        return origin if label == "@" else f"{label}.{origin}"
+
+    def body(depth, origin, last_owner, first):
+        """returns the text of one file; appends the absolute records to expanded"""
+        lines = []
+        for k in range(rng.randint(2, 6)):
+            r = rng.random()
+            if r < 0.2 and depth < 2:
+                how = rng.choice(("none", "abs", "rel"))
+                if how == "none":
+                    inner_origin, arg = origin, ""
+                elif how == "abs":
+                    inner_origin = f"i{counter[0]}.{zone_origin}"
+                    arg = " " + inner_origin
+                else:
+                    inner_origin = f"r{counter[0]}.{origin}"
+                    arg = f" r{counter[0]}"
+                counter[0] += 1
+                features.add(f"include-origin-{how}-depth{depth + 1}")
+                inner = body(depth + 1, inner_origin, last_owner, True)
+                path = os.path.join(tmpdir, f"f{counter[0]}.zone")
+                counter[0] += 1
+                with open(path, "w", encoding="utf-8") as f:
+                    f.write(inner)
+                lines.append(f"$INCLUDE {path}{arg}" + (" ; trailing comment" if rng.random() < 0.2 else ""))
+                # origin and last owner of THIS file are what they were
+                first = False if last_owner is not None else first
+            elif r < 0.32 and depth > 0:
+                origin = f"o{counter[0]}.{zone_origin}"
+                counter[0] += 1
+                lines.append(f"$ORIGIN {origin}")
+                features.add("origin-switch-inside-included-file")
+            elif r < 0.5 and last_owner is not None and not first:
+                counter[0] += 1
+                lines.append(f"  60 IN TXT \"t{counter[0]}\"")
+                expanded.append(f"{last_owner} 60 IN TXT \"t{counter[0]}\"")
+                features.add("inherited-owner" + ("-after-include" if lines and len(lines) > 1 and lines[-2].startswith("$INCLUDE") else ""))
+            else:
+                counter[0] += 1
+                label = f"h{counter[0]}"
+                last_owner = absname(label, origin)
+                first = False
+                if rng.random() < 0.5:
+                    lines.append(f"{label} 60 IN A 10.0.{counter[0] % 256}.1")
+                    expanded.append(f"{last_owner} 60 IN A 10.0.{counter[0] % 256}.1")
+                else:
+                    lines.append(f"{label} 60 IN MX 10 mail")
+                    expanded.append(f"{last_owner} 60 IN MX 10 mail.{origin}")
+        return "\n".join(lines) + "\n"
+
+    try:
+        head = f"$ORIGIN {zone_origin}\n@ 60 IN SOA ns hostmaster 1 2 3 4 5\n@ 60 IN NS ns\n"
+        expanded += [f"{zone_origin} 60 IN SOA ns.{zone_origin} hostmaster.{zone_origin} 1 2 3 4 5", f"{zone_origin} 60 IN NS ns.{zone_origin}"]
+        text = head + body(0, zone_origin, zone_origin, False)
+        case = {"kind": "include", "parent": text, "expanded": expanded[:60]}
+        if not any(f.startswith("include-") for f in features):
+            return
+        relativize = rng.random() < 0.5
+        zname, factory = FACTORIES[rng.randrange(3)]
+        try:
+            if rng.random() < 0.5:
+                z = dns.zone.from_text(text, origin=zone_origin, relativize=relativize, allow_include=True, zone_factory=factory)
+            else:
+                ppath = os.path.join(tmpdir, "parent.zone")
+                with open(ppath, "w", encoding="utf-8") as f:
+                    f.write(text)
+                z = dns.zone.from_file(ppath, origin=zone_origin, relativize=relativize, allow_include=True, zone_factory=factory)
+            ref = dns.zone.from_text("\n".join(expanded) + "\n", origin=zone_origin, relativize=relativize)
+        except Exception as e:
+            ctx.violation("include-file-raised:" + core.exc_sig(e), repr(e), case)
+            return
+        for f in features:
+            ctx.seen(("include", f))
+        got, want = GZ.content_of_lib_zone(z), GZ.content_of_lib_zone(ref)
+        if got != want:
+            ctx.violation("include-differs-from-its-expansion", f"{zname}: {diffc(got, want)}", case)
+    finally:
+        shutil.rmtree(tmpdir, ignore_errors=True)
+
+
 def run(spec, ctx):
     rng = ctx.rng
     os.makedirs(os.path.join(core.ROOT, ".work"), exist_ok=True)
@@ -529,6 +636,8 @@ def run(spec, ctx):
         for _ in range(6):
             check_cname_conflicts(ctx, rng)
         check_generate_partly_outside(ctx, rng)
+        for _ in range(4):
+            check_include(ctx, rng)
         if i < 1:
             ctx.sample({"zone": GZ.mz_to_text(mz)[:600]})
 
